@@ -240,7 +240,29 @@ var c12Fee = func() uint64 {
 	return 0
 }()
 
+// c12PrefixCheck runs the registration block (well-formed registrations only) on its own: it must complete.
+var c12PrefixMemo = map[world.Fork]string{}
+
+func c12PrefixCheck(f world.Fork) string {
+	if m, ok := c12PrefixMemo[f]; ok {
+		return m
+	}
+	code, _ := gen.BuildSeqIns(f, nil, nil, 1, c12Prefix(), 0, nil)
+	cs := gen.StdCase(f, code, "call", 300000)
+	cs.Accounts[1].Storage = c12Storage()
+	_, obs := c12Trace(cs)
+	msg := ""
+	if obs.Panic != "" || obs.Class != "ok" {
+		msg = fmt.Sprintf("a block of well-formed registrations (names in memory, small and hashed slots) halts the frame on %s: class=%s err=%q panic=%s", f, obs.Class, obs.Err, obs.Panic)
+	}
+	c12PrefixMemo[f] = msg
+	return msg
+}
+
 func c12Run(c *c12Case) (sig, detail string) {
+	if msg := c12PrefixCheck(c.Fork); msg != "" {
+		return "visible:halts:registration_block", msg
+	}
 	alpha := c12Alphabet()
 	st := c12Steps()[c.StepIx]
 	prefix := c12Prefix()
